@@ -16,8 +16,22 @@ pub mod monitor;
 #[path = "/repo/distributed-walrus/src/rpc.rs"]
 pub mod rpc;
 
+mod cluster;
 mod evidence;
+mod flow;
+mod proto;
 mod pure;
+
+pub fn known_open(id: &str, prop: &str) -> Option<String> {
+    let text = std::fs::read_to_string("/verif/known_findings.json").ok()?;
+    let v: serde_json::Value = serde_json::from_str(&text).ok()?;
+    for f in v["findings"].as_array()? {
+        if f["id"] == id && f["status"] == "open" && f["property"].as_array().map(|a| a.iter().any(|p| p == prop)).unwrap_or(false) {
+            return Some(f["title"].as_str().unwrap_or("").to_string());
+        }
+    }
+    None
+}
 
 fn main() {
     let args: Vec<String> = std::env::args().collect();
@@ -36,6 +50,9 @@ fn main() {
         "C18" => pure::check_c18(&tier),
         "C20a" => pure::check_c20a(&tier),
         "C25" => pure::check_c25(&tier),
+        "C24" => proto::check_c24(&tier),
+        "C22" => flow::check("C22", &tier),
+        "C23" => flow::check("C23", &tier),
         _ => {
             eprintln!("dwmc: unknown property {}", prop);
             2
